@@ -71,6 +71,7 @@ INDEX = {
  ]},
  "C11": {"package": ".", "harnesses": [
    {"name": "VerifH11MergeBlock", "common": {"max_depth": 2000}, "quick": {"bounds": {"local": 1, "remotes": 2, "pairs": 2, "rows": 2, "colhis": 1}}, "thorough": {"bounds": {"local": 2, "remotes": 3, "pairs": 2, "rows": 3, "colhis": 2}}},
+   {"name": "VerifH11SyncBlock", "common": {"max_depth": 3000}, "quick": {"bounds": {"bits": 2, "rows": 2, "colhis": 1}}, "thorough": {"bounds": {"bits": 3, "rows": 2, "colhis": 2}}},
  ]},
  "C12": {"package": ".", "harnesses": [
    {"name": "VerifH12TopIDs", "common": {"max_depth": 3000}, "quick": {"bounds": {"steps": 2, "ops": 9, "rows": 2, "colhis": 1, "caches": 2, "cachesizes": 1, "filters": 2}}, "thorough": {"bounds": {"steps": 2, "ops": 9, "rows": 3, "colhis": 2, "caches": 2, "cachesizes": 2, "filters": 2}}},
